@@ -7,7 +7,7 @@ from common import hx
 from eth_hash.auto import keccak
 
 ID = "C05"
-LEAN_IMPORTS = ["PyTrie.Props.C05", "PyTrie.Props.C05Batch", "PyTrie.Props.NonVacuity", "PyTrie.Props.FreeExec", "PyTrie.Props.NonVacuity5", "PyTrie.Props.FreeBatch"]
+LEAN_IMPORTS = ["PyTrie.Props.C05", "PyTrie.Props.C05Batch", "PyTrie.Props.NonVacuity", "PyTrie.Props.FreeExec", "PyTrie.Props.NonVacuity5", "PyTrie.Props.FreeBatch", "PyTrie.Props.HistoryBlocks", "PyTrie.Props.NonVacuity9"]
 THEOREMS = [
     "PyTrie.Props.Free.batch_op_leaves_outer",
     "PyTrie.Props.Free.abort_restores",
@@ -56,6 +56,11 @@ THEOREMS = [
     "PyTrie.Props.NonVacuity5.final_db",
     "PyTrie.Props.NonVacuity5.aborted_block_noop_p",
     "PyTrie.Props.NonVacuity5.aborted_block_noop_np",
+    "PyTrie.Props.Free.history_blocks_world",
+    "PyTrie.Props.Free.history_blocks_get",
+    "PyTrie.Props.Free.history_blocks_root",
+    "PyTrie.Props.NonVacuity9.world_witness_p",
+    "PyTrie.Props.NonVacuity9.world_witness_np",
 ]
 RULE = ("prior history, then squash_changes blocks with every exit kind: normal, an exception after n of the "
         "block's operations (every n), and - for non-pruning tries - the n-th database write of the commit failing "
